@@ -266,7 +266,7 @@ def make_download(rng, o, payload, mode, size_ind, opts):
         return RC.run(RC.download_segmented, o.idx, o.sub, payload, size_ind, fill_rng=rng if opts.get("fill") else None,
                       segbytes=opts.get("segbytes", 7), n0_last=opts.get("n0_last", False))
     return RC.run(RC.download_block, o.idx, o.sub, payload, size_ind, crc=opts.get("crc", False),
-                  lose=lose_fn(rng, opts.get("lose", "none")), pad_rng=rng if opts.get("fill") else None)
+                  lose=lose_fn(rng, opts.get("lose", "none")), pad_rng=rng if opts.get("fill") else None, empty_last=opts.get("empty_last", False))
 
 
 def apply_download(o, payload):
@@ -284,7 +284,7 @@ def choose_download(rng, world, big=True):
         mode = rng.choice(["exp", "exp", "seg", "blk"])
     else:
         cap = len(o.data)
-        ln = rng.choice([cap, cap, rng.randint(1, cap), rng.choice([s for s in SIZES if s <= cap])])
+        ln = rng.choice([cap, cap, rng.randint(1, cap), rng.choice([s for s in SIZES if s <= cap]), max(7, cap - cap % 7) if cap >= 7 else cap])
         payload = gen.rand_bytes(rng, ln)
         mode = rng.choice(["seg", "blk", "blk"]) if ln > 4 else rng.choice(["exp", "seg", "blk"])
     size_ind = rng.random() < 0.7
@@ -296,6 +296,8 @@ def choose_download(rng, world, big=True):
     if mode == "blk":
         opts["crc"] = rng.random() < 0.3
         opts["lose"] = rng.choice(["none", "none", "first", "middle", "secondlast", "several", "all-but-last"])
+        # any fill of the last segment: a payload of whole segments may be followed by a last segment that only carries the c bit (n = 7)
+        opts["empty_last"] = len(payload) % 7 == 0 and rng.random() < 0.5
     if mode == "exp" and not size_ind and o.kind == "dom":
         size_ind = True          # e=1,s=0 carries no length: only meaningful for fixed-size objects
     return o, payload, mode, size_ind, opts
